@@ -8,7 +8,8 @@ MENUS = {
         ('cancel', ['tA', 'tB', 'tBi', 'tApB', 'ka', 'm_b_bi', 'd_ka_b', 'm_apb_b', 'd_ka_ha', 'ha', 'd_ka_ka'], 6),
         ('noref', ['tA', 'tM', 'tMpA', 'p', 'q', 'ppa', 'qpa', 'm_ppa_a', 'm_qpa_a', 'm_a_qpa', 'd_ppa_qpa'], 8),
         ('badsym', ['tA', 'tB', 'tA2', 'tAB', 'tA2_symdup', 'tAB_symdup', 'ka', 'm_ka_ka', 'm_ka_b', 'm_b_ka'], 6),
-        ('noref2', ['tA', 'tM', 'tMpA', 'p', 'ka', 'ppkad', 'ppa', 'd_p_a', 'd_p_ka'], 8),
+        ('noref2', ['tA', 'tM', 'tMpA', 'p', 'ka', 'ppkad', 'ppa', 'd_p_a', 'd_p_ka', 'd_ppkad_ppa'], 8),
+        ('latealias', ['tA', 'tA2', 'ka', 'ka2', 'm_ka_ka', 'a2x', 'a_one', 'd_a2_ka'], 7),
         ('exp2', ['tA', 'tB', 'tApB', 'tApB2', 'ka', 'cb', 'kapcb2', 'd_ka_cb', 'd_ka_b'], 7),
         ('sameDef', ['tA', 'tA2', 'ka', 'ka2', 'kk', 'd_kk_ka', 'd_ka2_ka', 'm_ka_ka', 'p_ka_2'], 6),
     ],
